@@ -9,6 +9,13 @@ package main
 import (
 	"bytes"
 	"fmt"
+	"go/ast"
+	"go/parser"
+	"go/token"
+	"os"
+	"path/filepath"
+	"reflect"
+	"strings"
 
 	"github.com/elastos/Elastos.ELA/blockchain"
 	"github.com/elastos/Elastos.ELA/common"
@@ -52,6 +59,8 @@ var (
 )
 
 func next() int { id++; return id }
+
+func addBase(c string) { sh.Add("CBase (" + c + ")") }
 
 // clean mode: generators skip their mutations (cases that should be accepted)
 var clean bool
@@ -481,7 +490,7 @@ func runCase(data []byte, pairs []pair, kind string) {
 	}
 	acc, pan := accepted(func() error { return blockchain.RunPrograms(data, hs, ps) })
 	i := next()
-	sh.Add(fmt.Sprintf("CRun %d %s %s %s %s", i, sigkit.CoqHashes(hs), sigkit.CoqProgs(ps), t.Coq(data), lib.CoqBool(acc)))
+	addBase(fmt.Sprintf("CRun %d %s %s %s %s", i, sigkit.CoqHashes(hs), sigkit.CoqProgs(ps), t.Coq(data), lib.CoqBool(acc)))
 	in := map[string]interface{}{"op": "RunPrograms", "kind": kind, "data": sigkit.Hex(data), "hashes": sigkit.HashesJSON(hs),
 		"programs": sigkit.ProgsJSON(ps), "accepted": acc, "panicked": pan}
 	st.LogCase(run.Out, i, in)
@@ -676,7 +685,7 @@ func txCase() {
 	}
 	acc, pan := accepted(func() error { return transaction.CheckTransactionSignatureVerifC05(tx, refs) })
 	i := next()
-	sh.Add(fmt.Sprintf("CTx %d %s %s %s %s %s", i, sigkit.CoqHashes(refList), lib.CoqList(attrs), progsCoq, t.Coq(data), lib.CoqBool(acc)))
+	addBase(fmt.Sprintf("CTx %d %s %s %s %s %s", i, sigkit.CoqHashes(refList), lib.CoqList(attrs), progsCoq, t.Coq(data), lib.CoqBool(acc)))
 	in := map[string]interface{}{"op": "checkTransactionSignature", "kind": kind, "unsigned": sigkit.Hex(data),
 		"refs": sigkit.HashesJSON(refList), "scripts": s.scripts, "programs": progsJSON, "accepted": acc, "panicked": pan}
 	st.LogCase(run.Out, i, in)
@@ -709,7 +718,7 @@ func txCase() {
 	// GetTxProgramHashes observed separately
 	hs, err := blockchain.GetTxProgramHashes(tx, refs)
 	j := next()
-	sh.Add(fmt.Sprintf("CHashes %d %s %s %s %s", j, sigkit.CoqHashes(refList), lib.CoqList(attrs), lib.CoqBool(err == nil), sigkit.CoqHashes(sigkit.SortedHashes(hs))))
+	addBase(fmt.Sprintf("CHashes %d %s %s %s %s", j, sigkit.CoqHashes(refList), lib.CoqList(attrs), lib.CoqBool(err == nil), sigkit.CoqHashes(sigkit.SortedHashes(hs))))
 	st.LogCase(run.Out, j, map[string]interface{}{"op": "GetTxProgramHashes", "refs": sigkit.HashesJSON(refList), "scripts": s.scripts, "ok": err == nil, "out": sigkit.HashesJSON(sigkit.SortedHashes(hs))})
 	st.Count(sigkit.Digest("gh", kind, fmt.Sprint(len(hs))), len(refList) > len(hs), "GetTxProgramHashes")
 	if i%53 == 1 {
@@ -805,7 +814,7 @@ func multiCase() {
 	for _, k := range k34 {
 		kl = append(kl, sigkit.Pack(k))
 	}
-	sh.Add(fmt.Sprintf("CMulti %d %s %s %s %s %s %s", i, lib.CoqZi(int64(m)), lib.CoqZi(int64(nArg)), lib.CoqList(kl), sigkit.Pack(sigs), t.Coq(data), lib.CoqBool(acc)))
+	addBase(fmt.Sprintf("CMulti %d %s %s %s %s %s %s", i, lib.CoqZi(int64(m)), lib.CoqZi(int64(nArg)), lib.CoqList(kl), sigkit.Pack(sigs), t.Coq(data), lib.CoqBool(acc)))
 	var kh []string
 	for _, k := range k34 {
 		kh = append(kh, sigkit.Hex(k))
@@ -876,9 +885,211 @@ func shapeCase() {
 		ms = 1
 	}
 	i := next()
-	sh.Add(fmt.Sprintf("CShape %d %s %s %s %d", i, sigkit.Pack(code), lib.CoqBool(s), lib.CoqBool(c), ms))
+	addBase(fmt.Sprintf("CShape %d %s %s %s %d", i, sigkit.Pack(code), lib.CoqBool(s), lib.CoqBool(c), ms))
 	st.LogCase(run.Out, i, map[string]interface{}{"op": "shape", "code": sigkit.Hex(code), "std": s, "schnorr": c, "multisig": m})
 	st.Count(sigkit.Digest("shape", sigkit.Hex(code)), s || c || m, "shape")
+}
+
+
+// ---------------------------------------------------------------- exemptions of checkTransactionSignature
+
+// Mirror of model/C05_Sig.v [allowed_reason]: why a (type, payload version)
+// pair may skip RunPrograms.  "" = it may not.
+func allowedReason(ty, v byte) string {
+	switch {
+	case ty == 0x14:
+		return "no-inputs"
+	case ty == 0x2b, ty == 0x2a, ty == 0x29 && v == 0:
+		return "inputs-restricted"
+	case ty == 0x61, ty == 0x65:
+		return "known"
+	}
+	return ""
+}
+
+func probeTx(ty, v byte, victim common.Uint168) (interfaces.Transaction, map[*common2.Input]common2.Output) {
+	in := &common2.Input{Sequence: 1}
+	in.Previous.TxID[0] = 7
+	tx := transaction.CreateTransaction(common2.TxVersion09, common2.TxType(ty), v, nil, nil, []*common2.Input{in}, nil, 0, nil)
+	return tx, map[*common2.Input]common2.Output{in: {ProgramHash: victim, Value: 1000}}
+}
+
+// restrictsInputs: source fact (go/ast over <repo>/core/transaction): the
+// SpecialContextCheck of receiver type `name` ranges over t.references, looks
+// at ProgramHash and returns from inside the loop.
+func restrictsInputs(pkgs map[string]*ast.Package, name string) bool {
+	found := false
+	for _, pkg := range pkgs {
+		for _, f := range pkg.Files {
+			for _, d := range f.Decls {
+				fd, ok := d.(*ast.FuncDecl)
+				if !ok || fd.Recv == nil || fd.Name.Name != "SpecialContextCheck" || fd.Body == nil || len(fd.Recv.List) != 1 {
+					continue
+				}
+				star, ok := fd.Recv.List[0].Type.(*ast.StarExpr)
+				if !ok {
+					continue
+				}
+				if id, ok := star.X.(*ast.Ident); !ok || id.Name != name {
+					continue
+				}
+				ast.Inspect(fd.Body, func(n ast.Node) bool {
+					rs, ok := n.(*ast.RangeStmt)
+					if !ok {
+						return true
+					}
+					sel, ok := rs.X.(*ast.SelectorExpr)
+					if !ok || sel.Sel.Name != "references" {
+						return true
+					}
+					hasPH, hasRet := false, false
+					ast.Inspect(rs.Body, func(m ast.Node) bool {
+						if s, ok := m.(*ast.SelectorExpr); ok && s.Sel.Name == "ProgramHash" {
+							hasPH = true
+						}
+						if _, ok := m.(*ast.ReturnStmt); ok {
+							hasRet = true
+						}
+						return true
+					})
+					if hasPH && hasRet {
+						found = true
+					}
+					return true
+				})
+			}
+		}
+	}
+	return found
+}
+
+// exemptions probes every transaction type x payload version through the real
+// checkTransactionSignature, writes coq/gen/C05_exempt.v and returns the
+// valid types.
+func exemptions() []byte {
+	victim := sigkit.Hash(pStd, sigkit.StdCode(keys[4]))
+	fset := token.NewFileSet()
+	pkgs, err := parser.ParseDir(fset, filepath.Join(run.Repo, "core", "transaction"), func(fi os.FileInfo) bool {
+		return !strings.HasSuffix(fi.Name(), "_test.go")
+	}, 0)
+	if err != nil {
+		panic(err)
+	}
+	var valid []byte
+	var rows, facts []string
+	total := 0
+	for ty := 0; ty < 256; ty++ {
+		t0, err := transaction.GetTransaction(common2.TxType(ty))
+		if err != nil || t0 == nil {
+			continue
+		}
+		valid = append(valid, byte(ty))
+		var ex [256]bool
+		any := false
+		for v := 0; v < 256; v++ {
+			tx, refs := probeTx(byte(ty), byte(v), victim)
+			acc, _ := accepted(func() error { return transaction.CheckTransactionSignatureVerifC05(tx, refs) })
+			ex[v] = acc
+			if acc {
+				any = true
+				total++
+			}
+		}
+		if !any {
+			continue
+		}
+		for v := 0; v < 256; {
+			if !ex[v] {
+				v++
+				continue
+			}
+			lo := v
+			for v < 256 && ex[v] {
+				v++
+			}
+			rows = append(rows, fmt.Sprintf("(%d, %d, %d)", ty, lo, v-1))
+		}
+		// facts of an exempt type
+		tx, _ := probeTx(byte(ty), 0, victim)
+		noInputs := false
+		lib.Recover(func() {
+			tx.SetParameters(&transaction.TransactionParameters{Transaction: tx, Config: &config.DefaultParams})
+			noInputs = tx.CheckTransactionInput() != nil
+		})
+		name := reflect.TypeOf(t0).Elem().Name()
+		restr := restrictsInputs(pkgs, name)
+		facts = append(facts, fmt.Sprintf("(%d, %s, %s)", ty, lib.CoqBool(noInputs), lib.CoqBool(restr)))
+		st.Extra[fmt.Sprintf("exempt_type_0x%02x", ty)] = map[string]interface{}{"struct": name, "no_inputs": noInputs, "restricts_inputs": restr}
+	}
+	st.Extra["exempt_pairs"] = total
+	gen := "(* generated by harness/cmd/c05 from " + run.Repo + " on every run: (type, payload version) pairs for which\n" +
+		"   checkTransactionSignature returns nil without running a program (all 256 x 256 pairs probed), and per exempt type\n" +
+		"   (type, CheckTransactionInput forbids inputs, SpecialContextCheck tests the ProgramHash of t.references) *)\n" +
+		"From Coq Require Import ZArith Bool List.\nFrom ELA Require Import model.C05_Sig.\nImport ListNotations.\nLocal Open Scope Z_scope.\n" +
+		"Definition rows : list (Z * Z * Z) := " + lib.CoqList(rows) + ".\n" +
+		"Definition facts : list (Z * bool * bool) := " + lib.CoqList(facts) + ".\n" +
+		"Lemma checked : all_exemptions_justified rows facts = true.\nProof. vm_compute. reflexivity. Qed.\n"
+	gen = strings.ReplaceAll(gen, "\\n", "\n")
+	if err := os.WriteFile("/verif/coq/gen/C05_exempt.v", []byte(gen), 0o644); err != nil {
+		panic(err)
+	}
+	return valid
+}
+
+// typedCases: every transaction type x payload version 0..3, 0x7f, 0xff with
+// an input of a foreign address and only the sender's own (valid) program.
+func typedCases(valid []byte) {
+	victimKey, sender := keys[4], keys[3]
+	victim := sigkit.Hash(pStd, sigkit.StdCode(victimKey))
+	scode := sigkit.StdCode(sender)
+	shash := sigkit.Hash(pStd, scode)
+	for _, ty := range valid {
+		for _, v := range []byte{0, 1, 2, 3, 0x7f, 0xff} {
+			var pl interfaces.Payload
+			lib.Recover(func() { pl, _ = interfaces.GetPayload(common2.TxType(ty), v) })
+			in1 := &common2.Input{Sequence: 1}
+			copy(in1.Previous.TxID[:], rng.Bytes(32))
+			in2 := &common2.Input{Sequence: 2}
+			copy(in2.Previous.TxID[:], rng.Bytes(32))
+			out := &common2.Output{Value: 10, Type: common2.OTNone, Payload: &outputpayload.DefaultOutput{}}
+			copy(out.ProgramHash[:], shash[:])
+			tx := transaction.CreateTransaction(common2.TxVersion09, common2.TxType(ty), v, pl, nil,
+				[]*common2.Input{in1, in2}, []*common2.Output{out}, 0, nil)
+			refs := map[*common2.Input]common2.Output{in1: {ProgramHash: victim, Value: 1000}, in2: {ProgramHash: shash, Value: 5}}
+			var data []byte
+			lib.Recover(func() {
+				buf := new(bytes.Buffer)
+				tx.SerializeUnsigned(buf) // error ignored, exactly as checkTransactionSignature does
+				data = buf.Bytes()
+			})
+			ps := []*pg.Program{{Code: scode, Parameter: sigkit.SigScript(sender, data)}}
+			tx.SetPrograms(ps)
+			t := &sigkit.Tables{}
+			t.AddProgram(ps[0])
+			progsCoq := sigkit.CoqProgs(ps)
+			acc, pan := accepted(func() error { return transaction.CheckTransactionSignatureVerifC05(tx, refs) })
+			i := next()
+			sh.Add(fmt.Sprintf("CTyped %d %d %d %s [] %s %s %s", i, ty, v, sigkit.CoqHashes([]common.Uint168{victim, shash}), progsCoq, t.Coq(data), lib.CoqBool(acc)))
+			in := map[string]interface{}{"op": "checkTransactionSignature", "txType": fmt.Sprintf("0x%02x %s", ty, common2.TxType(ty).Name()), "payloadVersion": v,
+				"foreignInput": sigkit.Hex(victim[:]), "programs": sigkit.ProgsJSON(ps), "accepted": acc, "panicked": pan}
+			st.LogCase(run.Out, i, in)
+			st.Count(fmt.Sprintf("typed:%02x:%d:%v", ty, v, acc), true, "typed:"+outcome(acc, pan))
+			if !acc {
+				continue
+			}
+			// accepted although the foreign address has no authorising program
+			switch allowedReason(ty, v) {
+			case "no-inputs", "inputs-restricted":
+				st.Hist["typed:exempt-justified"]++
+			case "known":
+				st.Fail(fmt.Sprintf("checkTransactionSignature:exempt-type-inputs-unrestricted:0x%02x", ty),
+					"a program-less "+common2.TxType(ty).Name()+" transaction skips the signature check and its SpecialContextCheck does not restrict the input addresses", in)
+			default:
+				st.Fail("checkTransactionSignature:accepted-without-authorising-program",
+					fmt.Sprintf("%s with payload version %d accepted although the spent address %s has no program", common2.TxType(ty).Name(), v, sigkit.Hex(victim[:])), in)
+			}
+		}
+	}
 }
 
 func main() {
@@ -891,8 +1102,8 @@ func main() {
 	config.DefaultParams = *config.GetDefaultParams()
 	rng = lib.NewRng(run.Seed)
 	st = lib.NewStats("C05", "real P-256/Schnorr keys; RunPrograms slots: standard, m-of-n (n<=6) under multisig/standard/deposit prefix, aggregated Schnorr, cross-chain prefix, malformed codes under every prefix, with wrong-key / wrong-data / bit-flipped / truncated / duplicated-signer / duplicated-key / foreign-signer variants; whole transactions through checkTransactionSignature (1-4 owners, repeated addresses, Script attributes, missing/extra programs, tampering after signing); VerifyMultisigSignatures with m in -1..n+1, undecodable keys, length-byte aliases. nontrivial = reaches a signature decision; distinct by (variant kind, outcome)")
-	sh = &lib.Shards{Dir: run.Out, Imports: "From Coq Require Import Uint63.\nFrom ELA Require Import model.C05_Sig corr.C05_corr.\nImport C05_corr.", CaseType: "C05_corr.case",
-		Mismatch: "C05_corr.mismatches", Scope: "Z", PerShard: 40}
+	sh = &lib.Shards{Dir: run.Out, Imports: "From Coq Require Import Uint63.\nFrom ELA Require Import model.C05_Sig corr.C05_corr corr.C05_typed_corr.\nImport C05_corr C05_typed_corr.", CaseType: "C05_typed_corr.case",
+		Mismatch: "C05_typed_corr.mismatches", Scope: "Z", PerShard: 40}
 	for i := 0; i < 9; i++ {
 		keys = append(keys, sigkit.NewKey(rng))
 	}
@@ -977,7 +1188,7 @@ func main() {
 			}
 			acc, pan := accepted(func() error { return blockchain.RunPrograms(data, hs, ps) })
 			k := next()
-			sh.Add(fmt.Sprintf("CRun %d %s %s %s %s", k, sigkit.CoqHashes(hs), sigkit.CoqProgs(ps), t.Coq(data), lib.CoqBool(acc)))
+			addBase(fmt.Sprintf("CRun %d %s %s %s %s", k, sigkit.CoqHashes(hs), sigkit.CoqProgs(ps), t.Coq(data), lib.CoqBool(acc)))
 			in := map[string]interface{}{"op": "RunPrograms", "kind": "countmismatch", "hashes": sigkit.HashesJSON(hs), "programs": sigkit.ProgsJSON(ps), "accepted": acc}
 			st.LogCase(run.Out, k, in)
 			st.Count("countmismatch", false, "RunPrograms:"+outcome(acc, pan))
@@ -988,6 +1199,8 @@ func main() {
 		}
 		runCase(data, pairs, kind)
 	}
+	// ---- exemption table (regenerated) and every transaction type end to end
+	typedCases(exemptions())
 	// ---- whole transactions
 	for i := 0; i < run.N(70, 3000); i++ {
 		txCase()
